@@ -182,6 +182,14 @@ func TestVerifJwtGate(t *testing.T) {
 		prefixes = append(prefixes, []jwReq{a})
 		for _, b := range hist {
 			prefixes = append(prefixes, []jwReq{a, b})
+			if vrt.Thorough() {
+				for _, c := range hist {
+					prefixes = append(prefixes, []jwReq{a, b, c})
+					for _, d := range hist {
+						prefixes = append(prefixes, []jwReq{a, b, c, d})
+					}
+				}
+			}
 		}
 	}
 	c := vrt.NewCases("auth/jwt")
